@@ -11,8 +11,23 @@
            T r                            results[r].state()
     answer: observables separated by " | ", each followed by " u=<random answers consumed>"
     A j <same as H>   answer of the sub-history of result j run alone (aloneFrom j 0)
+    L <same as H>     `circuit._final_state` after the history: index of the result, or "-"
+
+  scheduler model of the parallel helpers (QV/Model/Parallel.lean), parameters and states are
+  naturals, the "state" of a job is the log [input…, parameter read by gate 0, gate 1, …]:
+    PX <np> p… <ngates> <nstates> {<len> v…} <nsched> s…                 parallel_execution
+    PC <nheap> {<np> p…} <njobs> {addr ngates} <nstates> {<len> v…} <nsched> s…
+                                                                         parallel_circuits_execution
+    PP <np> p… <ngates> <nslots> slot… <nsets> {<len> v…} <ninput> v… <nsched> s…
+                                                                         parallel_parametrized_execution
+    PS <same as PP>   the same helper without the deep copy
+    PT <njobs> {<len> b…} <nsched> s…   the global generator: per job the positions it was given,
+                                         then the same for the one-worker schedule
+    answer: "J <jobs> # R <results under the schedule> # Q <results of the sequential loop>
+             # X <closed form seqResult> # H <heap after the schedule> # D=<disciplined> C=<complete>"
 -/
 import QV.Model.ResultSM
+import QV.Model.Parallel
 open QV.RSM
 
 structure Rd where
@@ -97,6 +112,88 @@ def showOut : Out → String
 def showObs (l : List Obs) : String :=
   " | ".intercalate (l.map fun o => showOut o.1 ++ " u=" ++ toString o.2)
 
+/-! ### parallel helpers -/
+
+open QV.Par in
+def optNat : Option Nat → String
+  | none => "-"
+  | some n => toString n
+
+open QV.Par in
+def showJobs (jobs : List (Job Nat (List Nat))) : String :=
+  " ".intercalate (jobs.map fun j =>
+    toString j.circ ++ "/" ++ optNat j.copyFrom ++ "/" ++ toString j.ngates ++ "/" ++
+      (if j.ownInput then "1" else "0") ++ "/" ++
+      ",".intercalate (j.set.map fun w => toString w.1 ++ ":" ++ toString w.2))
+
+def showRes : Option (List Nat) → String
+  | none => "-"
+  | some l => "r " ++ nats l
+
+open QV.Par in
+def showHeap (h : List (Circ Nat)) : String :=
+  " ; ".intercalate (h.map fun c => nats c.params ++ " / " ++ optNat c.resetBy ++ " / " ++ optNat c.final)
+
+open QV.Par in
+def parAnswer (heap : List (Circ Nat)) (jobs : List (Job Nat (List Nat))) (sched : List Nat) : String :=
+  let σ := run logApply jobs (init heap jobs) sched
+  let q := run logApply jobs (init heap jobs) (seqSched jobs)
+  "J " ++ showJobs jobs ++
+  " # R " ++ " | ".intercalate ((results jobs σ).map showRes) ++
+  " # Q " ++ " | ".intercalate ((results jobs q).map showRes) ++
+  " # X " ++ " | ".intercalate (jobs.map fun j => showRes (some (seqResult logApply heap j))) ++
+  " # H " ++ showHeap σ.heap ++
+  " # D=" ++ (if disciplinedB jobs then "1" else "0") ++ " C=" ++ (if completeB jobs sched then "1" else "0")
+
+def nextLists : P (List (List Nat)) := do
+  let k ← nextNat
+  let mut out := []
+  for _ in [0:k] do
+    out := (← nextNatList) :: out
+  pure out.reverse
+
+def nextPairs : P (List (Nat × Nat)) := do
+  let k ← nextNat
+  let mut out := []
+  for _ in [0:k] do
+    let a ← nextNat
+    let b ← nextNat
+    out := (a, b) :: out
+  pure out.reverse
+
+open QV.Par in
+def parLine (t : String) : P String := do
+  match t with
+  | "PT" =>
+    let progs ← nextLists
+    let sched ← nextNatList
+    let pb := progs.map fun p => p.map (· != 0)
+    pure (natss (tapeRun pb sched).got ++ " # " ++ natss (tapeRun pb (tapeSeq pb)).got ++ " # " ++
+      toString (tapeRun pb sched).cursor)
+  | "PX" =>
+    let ps ← nextNatList
+    let ng ← nextNat
+    let states ← nextLists
+    let sched ← nextNatList
+    pure (parAnswer [{ params := ps }] (parExecution ng states) sched)
+  | "PC" =>
+    let heap ← nextLists
+    let addrs ← nextPairs
+    let states ← nextLists
+    let sched ← nextNatList
+    pure (parAnswer (heap.map fun ps => { params := ps }) (parCircuits addrs states []) sched)
+  | _ =>
+    let ps ← nextNatList
+    let ng ← nextNat
+    let slots ← nextNatList
+    let sets ← nextLists
+    let input ← nextNatList
+    let sched ← nextNatList
+    if t == "PP" then
+      pure (parAnswer (paramHeap { params := ps } sets.length) (parParametrized ng slots sets input) sched)
+    else
+      pure (parAnswer [{ params := ps }] (parParametrizedShared ng slots sets input) sched)
+
 def answer (line : String) : String :=
   let toks := (line.splitOn " ").filter (· ≠ "") |>.toArray
   let go : P String := do
@@ -109,6 +206,10 @@ def answer (line : String) : String :=
       let j ← nextNat
       let (c, ops) ← nextHistory
       pure (showObs (run c (aloneFrom j 0 ops)))
+    | "L" =>
+      let (c, ops) ← nextHistory
+      pure (optNat (stateAfter c (St.init c) ops).final)
+    | "PX" | "PC" | "PP" | "PS" | "PT" => parLine t
     | _ => pure "?"
   (go.run { toks := toks }).1
 
